@@ -99,6 +99,7 @@ def shards(tier, seed):
             out.append(('tok', n, t0, k))
     out.append(('misc', None, None, None))
     out.append(('overlap', None, None, None))
+    out.append(('nested', None, None, None))
     out.append(('tz', None, None, None))
     out.append(('rewrite', None, None, None))
     MB = 1 << 20
@@ -114,7 +115,7 @@ def bounds(tier, seed):
             'if_modified_since': ['absent', 'mtime-1', 'mtime', 'mtime+1', 'garbage'], 'process_time_zones': ZONES, 'methods': ['GET', 'HEAD']}
 
 
-FLOORS = {'overlapping_answers': 50, 'rewrite_probes': 50, 'tz_cases': 50, 'r206': 1000, 'r416': 1000, 'r304': 20, 'r200': 20, 'head_pairs': 100, 'multi_chunk_206': 50,
+FLOORS = {'nested_subrequest': 50, 'overlapping_answers': 50, 'rewrite_probes': 50, 'tz_cases': 50, 'r206': 1000, 'r416': 1000, 'r304': 20, 'r200': 20, 'head_pairs': 100, 'multi_chunk_206': 50,
           'canonical_sat': 200, 'canonical_unsat': 100}
 
 
@@ -135,6 +136,16 @@ class Ctx:
             def serve(name):
                 return ss.static_file(name, app._c17_root[0])
             self.app.route('/c17/<name>', 'GET', serve)
+            # the same file through a handler that first lets ANOTHER application serve a request of its own (a sub-request with
+            # other Range / If-Modified-Since headers and another method)
+            side = self.om.Ombott()
+            side.route('/side', 'ANY', lambda: 'side answer')
+            w = wsgi
+
+            def serve_nested(name):
+                w.call(side, w.environ('HEAD', '/side', headers={'Range': 'bytes=5-9', 'If-Modified-Since': 'Fri, 01 Jan 2100 00:00:00 GMT'}))
+                return ss.static_file(name, app._c17_root[0])
+            self.app.route('/c17n/<name>', 'GET', serve_nested)
         else:
             self.app._c17_root[0] = root
         self.made = {}
@@ -163,12 +174,13 @@ class Ctx:
             h['Range'] = rng
         if ims is not None:
             h['If-Modified-Since'] = ims
-        env = wsgi.environ(method, '/c17/' + self.file(n), headers=h)
+        env = wsgi.environ(method, ('/c17n/' if self.nested else '/c17/') + self.file(n), headers=h)
         if self.file_wrapper:
             env['wsgi.file_wrapper'] = wsgi.FileWrapper        # the server offers its own way of sending files
         return wsgi.call(self.app, env)
 
     file_wrapper = False
+    nested = False
 
 
 IMS = ['absent', 'before', 'equal', 'after', 'garbage',
@@ -434,6 +446,16 @@ def work(spec):
                         one(res, ctx, n, rng, ik, BUF, with_head=True, extra={'fw': True})
             ctx.file_wrapper = False
             core.add_sample(res, {'misc_ranges': rngs, 'ims': list(IMS), 'with_and_without_wsgi.file_wrapper': True})
+        elif kind == 'nested':
+            ctx.small_buffer(True)
+            ctx.nested = True
+            for nn in (9, 12):
+                for rng in (None, 'bytes=0-3', 'bytes=2-', 'bytes=-4', 'bytes=20-29', 'bytes=5-9', 'bytes=0-0,2-3', 'bytes=11-'):
+                    for ik in ('absent', 'equal', 'before', 'future'):
+                        one(res, ctx, nn, rng, ik, BUF, True, extra={'nested': True})
+                        res['counters']['nested_subrequest'] += 1
+            ctx.nested = False
+            core.add_sample(res, {'handler_makes_a_sub_request_to_another_application_first': res['counters']['nested_subrequest']})
         elif kind == 'overlap':
             work_overlap(res, ctx)
         elif kind == 'rewrite':
@@ -542,6 +564,7 @@ def replay(case):
         buf = case['buf']
         ctx.small_buffer(buf == BUF)
         ctx.file_wrapper = bool(case.get('fw'))
+        ctx.nested = bool(case.get('nested'))
         n, rng, ik = case['n'], case['range'], case['ims']
         g = ctx.get(n, rng, ims_value(ik, ctx.mtime), 'GET')
         v = judge(g, n, rng, ik, 'GET', buf)
@@ -554,7 +577,8 @@ def replay(case):
             return None
         z = f' (process TZ={case["zone"]}, mtime={formatdate(case["mtime"], usegmt=True)})' if case.get('zone') else ''
         fw = ' (the server offers wsgi.file_wrapper)' if case.get('fw') else ''
-        return f'{n}-byte file, Range={rng!r}, If-Modified-Since={ik}{z}{fw}: {v[1]}'
+        ne = ' (the handler lets another application serve a HEAD sub-request with Range bytes=5-9 and a future If-Modified-Since before it calls static_file)' if case.get('nested') else ''
+        return f'{n}-byte file, Range={rng!r}, If-Modified-Since={ik}{z}{fw}{ne}: {v[1]}'
     finally:
         if case.get('zone'):
             if old is None:
